@@ -183,6 +183,37 @@ def async_tx_scenarios():
                 yield plan
 
 
+def async_one_write_scenarios():
+    """a non-transactional pipeline of the asyncio client is ONE write: if its blocking pop has to wait, everything behind it in that write waits too -
+    no effect before the pop is answered, replies in request order - exactly as when the requests arrive one by one"""
+    writes = [[[b'blpop', b'l0', b'0'], [b'set', b'k', b'v'], [b'ping']],
+              [[b'incr', b'n'], [b'brpop', b'l0', b'l1', b'2'], [b'rpush', b'l0', b'mine'], [b'llen', b'l0']],
+              [[b'brpoplpush', b'l0', b'dst', b'0'], [b'blpop', b'dst', b'0'], [b'get', b'k']],
+              [[b'blpop', b'l0', b'1'], [b'multi'], [b'incr', b'n'], [b'exec']],
+              [[b'get', b'k'], [b'set', b'k', b'w'], [b'get', b'k']]]
+    feeds = [[[b'rpush', b'l0', b'a']], [[b'set', b'k', b'other'], [b'rpush', b'l0', b'a', b'b']], []]
+    for w in writes:
+        for feed in feeds:
+            def plan(s, rng, w=w, feed=feed):
+                yield ('open', 1)
+                yield ('open', 2)
+                yield ('cmdw', 1, [list(f) for f in w])
+                yield ('cmd', 2, [b'get', b'k'])
+                yield ('cmd', 2, [b'get', b'n'])
+                yield ('cmd', 2, [b'lrange', b'l0', b'0', b'-1'])
+                for f in feed:
+                    yield ('cmd', 2, list(f))
+                for _ in range(3):
+                    if any(sk._paused for sk in s.impl.socks.values()):
+                        yield ('aadv', 1.5)
+                yield ('cmd', 2, [b'get', b'k'])
+                yield ('cmd', 2, [b'lrange', b'l0', b'0', b'-1'])
+                yield ('cmd', 2, [b'lrange', b'dst', b'0', b'-1'])
+                if not s.impl.socks[1]._paused:
+                    yield ('cmd', 1, [b'ping'])
+            yield plan
+
+
 def plan_async_tx(length):
     """MULTI/EXEC on the asyncio front-end, with blocking pops (which must not block) and errors inside the queue"""
     def plan(s, rng):
